@@ -89,6 +89,10 @@ Thorough tier: compile_fail witness that CompilerError exposes no bindings. \
 Not decided: that a warning never alters *dependent* definitions' bindings in ways beyond the dependency.".into();
     ctx.assumptions = vec!["documented silent categories: Class, Object (non-set), parameterized templates, object sets with opaque_open_types".into()];
     ctx.rule("exhaustive variant analysis of dispatch matches; guard tables; fold closures evaluated for Ok/Err");
+    // "a warning about one definition never alters the bindings of definitions that do not depend on it": an assignment (REAL,
+    // an unsupported kind, ..) whose parser consumes the comments behind it takes the doc comments of the next one (= C11.comments)
+    crate::rules::c11::trailing_trivia(m, ctx, "C10.comments");
+    bound_errors_reported(m, ctx);
     let consts = const_resolver(m);
 
     empties(m, ctx, &consts);
@@ -995,4 +999,56 @@ fn header(m: &Model, ctx: &mut Ctx) {
             }
         }
     }
+}
+
+
+/// C10.local (errors of linking steps): every place in the validator that binds the error of a step (`if let Err(e) = step`,
+/// a `match` arm `Err(e) =>`) hands that error on — into the list of warnings the compilation returns, or out of the function.
+/// An error that is bound and then dropped is a definition that silently stays unlinked: lost without a warning.
+fn bound_errors_reported(m: &Model, ctx: &mut Ctx) {
+    let rule = "C10.local";
+    let mut sites = 0;
+    for f in m.fns.iter().filter(|f| f.krate == "rasn-compiler" && f.module == "validator" && f.self_ty.as_deref() == Some("Validator")) {
+        struct Sites { out: Vec<(String, String, usize)> }
+        impl model::DeepCb for Sites {
+            fn expr(&mut self, e: &syn::Expr) {
+                let bound = |p: &syn::Pat| -> Option<String> {
+                    let t = tok(p);
+                    let inner = t.strip_prefix("Err(")?.strip_suffix(')')?;
+                    let name = inner.trim_start_matches("mut ").trim_start_matches("ref ").to_string();
+                    if name.chars().all(|c| c.is_alphanumeric() || c == '_') && name != "_" && !name.is_empty() { Some(name) } else { None }
+                };
+                match e {
+                    syn::Expr::If(i) => {
+                        if let syn::Expr::Let(l) = &*i.cond {
+                            if let Some(n) = bound(&l.pat) {
+                                self.out.push((n, tok(&i.then_branch), crate::rules::util::span_line(i)));
+                            }
+                        }
+                    }
+                    syn::Expr::Match(mt) => {
+                        for a in mt.arms.iter() {
+                            if let Some(n) = bound(&a.pat) {
+                                self.out.push((n, tok(&a.body), crate::rules::util::span_line(a)));
+                            }
+                        }
+                    }
+                    _ => {}
+                }
+            }
+        }
+        let mut c = Sites { out: vec![] };
+        model::deep_walk_block(&f.block, &mut c);
+        for (var, body, line) in c.out {
+            sites += 1;
+            ctx.oblige(rule, &format!("error-handed-on:{}:{}", f.name, sites), true);
+            let pushed = body.contains(".push(") && (body.contains(&format!("{}.into()", var)) || body.contains(&format!("({})", var)) || body.contains(&format!("{}.clone()", var)));
+            let returned = body.contains("return Err(") || body.contains(&format!("Err({}", var));
+            if !pushed && !returned {
+                ctx.violate(rule, &format!("bound-error-dropped:{}", f.name), &f.file, line,
+                    &format!("Validator::{} binds the error of a linking step as `{}` and neither pushes it into the warnings nor returns it: the definition stays as it was and nothing tells the user (\"it is the subject of a returned warning\")", f.name, var));
+            }
+        }
+    }
+    ctx.floor("C10.local/bound-errors", sites, 7);
 }
